@@ -48,6 +48,12 @@ fn main() {
         shards,
     };
     fw::install_panic_hook();
+    if id == "CORPUS" {
+        // maintenance command: regenerate the committed seed corpora of the fuzz targets
+        fuzzglue::write_seed_corpus();
+        println!("seed corpora written under /verif/corpus");
+        return;
+    }
     let entry = match checks::lookup(&id) {
         Some(e) => e,
         None => {
